@@ -19,6 +19,7 @@ theorem loop_all_groups (arm : Arm) (gs : List Group) (fuel currLen : Nat) (acc 
     (hcl : gs ≠ [] → currLen ≠ (flat gs).length) :
     tagLoop arm (gs.length + (fuel + 1)) currLen (flat gs) acc seen = .ok (results gs acc, tagsOf gs seen, []) := by
   have := tagLoop_groups arm gs (fuel + 1) currLen [] acc seen hok hnd hns (by simpa using hcl)
+    (fun g _ => Or.inr (noStart_nil g.t))
   simp only [List.append_nil] at this
   rw [this]
   simp [tagLoop]
@@ -30,9 +31,15 @@ theorem loop_foreign_tag (arm : Arm) (gs : List Group) (fuel currLen : Nat) (tai
     (acc : List (Nat × Val)) (seen : List Nat)
     (hok : ∀ g ∈ gs, GroupOK arm g) (hnd : (gs.map (·.t)).Nodup) (hns : ∀ g ∈ gs, g.t ∉ seen)
     (hcl : gs ≠ [] → currLen ≠ (flat gs ++ tail).length) (hcl0 : gs = [] → currLen ≠ tail.length)
-    (htag : tagDecDefault tail = .ok (u, r)) (hunk : arm u tail = none) :
+    (htag : tagDecDefault tail = .ok (u, r)) (hunk : arm u tail = none) (hfor : ∀ g ∈ gs, g.t ≠ u) :
     tagLoop arm (gs.length + (fuel + 1)) currLen (flat gs ++ tail) acc seen = .ok (results gs acc, tagsOf gs seen, tail) := by
-  rw [tagLoop_groups arm gs (fuel + 1) currLen tail acc seen hok hnd hns hcl]
+  have hlast : ∀ g, gs.getLast? = some g → g.Follows tail := by
+    intro g hg
+    right; intro r' h'
+    rw [htag] at h'
+    simp only [Except.ok.injEq, Prod.mk.injEq] at h'
+    exact hfor g (List.mem_of_getLast? hg) h'.1.symm
+  rw [tagLoop_groups arm gs (fuel + 1) currLen tail acc seen hok hnd hns hcl hlast]
   have hne : tail ≠ [] := by intro h; subst h; simp [tagDecDefault] at htag
   have hl : lastLen gs tail currLen ≠ tail.length := by
     cases gs with
@@ -46,14 +53,17 @@ theorem loop_foreign_tag (arm : Arm) (gs : List Group) (fuel currLen : Nat) (tai
   simp [this, htag, hunk]
 
 /-- **Duplicate.** A second group with a tag that was already consumed — wherever it stands — is rejected
-with `DuplicateTag` naming that tag, before its content is even looked at. -/
+with `DuplicateTag` naming that tag, before its content is even looked at. (`hlast`: the group just before
+the duplicate may be followed by it — always so for a single field; the elements of a `Vec` field that stand
+next to each other form ONE group, so a duplicate of a `Vec` group is one that is separated from it.) -/
 theorem loop_duplicate (arm : Arm) (gs : List Group) (fuel currLen : Nat) (tail : Bytes) (t : Nat) (r : Bytes)
     (idx : Nat) (res : Res (Val × Bytes)) (acc : List (Nat × Val)) (seen : List Nat)
     (hok : ∀ g ∈ gs, GroupOK arm g) (hnd : (gs.map (·.t)).Nodup) (hns : ∀ g ∈ gs, g.t ∉ seen)
     (hcl : gs ≠ [] → currLen ≠ (flat gs ++ tail).length) (hcl0 : gs = [] → currLen ≠ tail.length)
-    (htag : tagDecDefault tail = .ok (t, r)) (harm : arm t tail = some (idx, res)) (hdup : t ∈ tagsOf gs seen) :
+    (htag : tagDecDefault tail = .ok (t, r)) (harm : arm t tail = some (idx, res)) (hdup : t ∈ tagsOf gs seen)
+    (hlast : ∀ g, gs.getLast? = some g → g.Follows tail) :
     tagLoop arm (gs.length + (fuel + 1)) currLen (flat gs ++ tail) acc seen = .error (.duplicateTag t) := by
-  rw [tagLoop_groups arm gs (fuel + 1) currLen tail acc seen hok hnd hns hcl]
+  rw [tagLoop_groups arm gs (fuel + 1) currLen tail acc seen hok hnd hns hcl hlast]
   have hne : tail ≠ [] := by intro h; subst h; simp [tagDecDefault] at htag
   have hl : lastLen gs tail currLen ≠ tail.length := by
     cases gs with
